@@ -128,8 +128,11 @@ def setup(prob):
     # components removed; a component within 2 % of the threshold may go either way (bslack: such a case is not judged)
     S.tol = float(prob['tol']) if prob.get('tol') is not None else 1e-8
     S.bslack = 0.0
-    if S.tol > 1e-8:
-        ratio = np.abs(S.b) / np.abs(S.b).max()
+    S.b_raw = S.b.copy()
+    ratio = np.abs(S.b) / np.abs(S.b).max()
+    # (components that are rounding residue of my own arithmetic, below 1e-13 of the largest, are left alone: the tolerances
+    # never see them; the near-threshold generators put components at 1e-12 .. 1e-7 of the largest)
+    if S.tol > 1e-8 or bool(np.any((ratio > 1e-13) & (ratio < 1.02 * S.tol))):
         band = (ratio > 0.98 * S.tol) & (ratio < 1.02 * S.tol)
         S.bslack = float(np.abs(S.b)[band].max()) if band.any() else 0.0
         S.b = np.where((ratio < S.tol) & ~band, 0.0, S.b)
@@ -167,6 +170,13 @@ def to_iso_mode(S):
     S.iso = True
 
 
+def left_plane(S):
+    """the documented rounding (components below tol of the largest are zeroed, in Cartesian coordinates) has taken the Burgers
+    vector out of the slip plane of a frame that is ALMOST aligned with the Cartesian axes (by up to tol |b|): the isotropic class
+    is documented for Burgers vectors in the slip plane only - such a case is counted, the header judged"""
+    return bool(S.iso and abs(float(S.b @ S.n)) > 1e-9 * S.bn and abs(float(S.b_raw @ S.n)) <= 1e-12 * S.bn)
+
+
 def _conv(aslist):
     if aslist:
         return lambda a: np.asarray(a, dtype=float).tolist()
@@ -185,12 +195,15 @@ def solver_args(prob, S):
         how = mn.get('pass', 'ss')
         kw['m'] = mn['m'] if how[0] == 's' else conv(S.m)
         kw['n'] = mn['n'] if how[1] == 's' else conv(S.n)
-    elif mn['kind'] == 'vec':
+    elif mn['kind'] in ('vec', 'axis'):
         kw['m'], kw['n'] = conv(S.m), conv(S.n)
     o = prob['orient']
     b = S.b_cart
     if o['kind'] == 'transform':
         kw[o['via']] = conv(S.T * np.array(o['rowscale'], dtype=float)[:, None])
+    elif o['kind'] == 'rows':
+        # integer rows as they are written by hand: Python ints in the list form, an integer array else
+        kw[o['via']] = [list(r) for r in o['rows']] if prob['aslist'] else np.array(o['rows'])
     elif o['kind'] == 'miller':
         V = g.box_vects(o['box'])
         if o['box']['family'] != 'unit':
@@ -204,6 +217,10 @@ def solver_args(prob, S):
             b = np.array(g.three_to_four_vector(b))
         kw['ξ_uvw'] = uvw if prob['aslist'] else np.array(uvw)
         kw['slip_hkl'] = hkl if prob['aslist'] else np.array(hkl)
+    if 'bgiven' in prob:
+        b = np.array(prob['bgiven'], dtype=float)           # exact fractions, as written by hand (gens_c12.exact_b)
+    if prob.get('cart_axes'):
+        kw['cart_axes'] = True                              # (clause combos: only with m, n along +x, +y, +z)
     return conv(b), kw
 
 
@@ -273,6 +290,16 @@ def begin(prob):
         # an entry of the Hill-average tensor sits on the Cij setter's zeroing floor (see gens_c12.iso_deviation)
         labels.add('neariso_on_zeroing_floor')
         judge = False
+    if judge and S.bslack and S.tol == 1e-8 and prob.get('tol') is None:
+        # a Burgers component within 2 % of the documented zeroing threshold (default tol): zeroed or kept, either is what
+        # "below tol" allows; header only (the decades clause does the same for the other values of tol)
+        check_header(sol, S, prob)
+        labels.add('b_component_on_tol_threshold')
+        judge = False
+    if judge and left_plane(S):
+        check_header(sol, S, prob)
+        labels.add('b_left_slip_plane_by_tol')
+        judge = False
     if judge and S.near and not S.iso:
         # the dispatcher's Stroh attempt passed its self-checks on a nearly isotropic medium.  The isotropic limit of the
         # sextic eigenproblem is DEFECTIVE (triple root p = i with a Jordan block), the roots of the perturbed problem are
@@ -316,10 +343,11 @@ def check_header(sol, S, prob):
     return Cg
 
 
-def field(sol, name, pos, aslist=False):
-    """sol.<name>(pos) with shape / dtype / finiteness checks; pos (3,) or (N,3); returns (3,..) or (N,..)"""
+def field(sol, name, pos, aslist=False, given=None):
+    """sol.<name>(pos) with shape / dtype / finiteness checks; pos (3,) or (N,3); returns (3,..) or (N,..).  given: the object
+    that is handed over for these positions (another dtype, a list of numpy scalars; clause forms)"""
     pos = np.asarray(pos, dtype=float)
-    out = getattr(sol, name)(pos.tolist() if aslist else pos)
+    out = getattr(sol, name)(given if given is not None else pos.tolist() if aslist else pos)
     out = np.asarray(out)
     tail = (3,) if name == 'displacement' else (3, 3)
     if pos.ndim == 2 and pos.shape[0] == 1 and out.shape == tail:
@@ -373,11 +401,14 @@ _cutz = st.one_of(gens.nice(-10.0, 10.0, 3), st.just(0.0))
 _shift = st.one_of(gens.nice(-20.0, 20.0, 3), st.sampled_from([1.0, -4.0]))
 
 
+_dk = st.sampled_from([9, 9, 9, 9, 10, 11, 12, 12])        # the pair straddling the cut: 1e-9 .. 1e-12 r above / below it
+
+
 @st.composite
 def jump_cases(draw):
     return {'prob': draw(_prob_any),
             'cut': draw(st.lists(st.tuples(_cutr, _cutz).map(list), min_size=1, max_size=3)),
-            'rays': draw(g.local_points(1, 3)), 'shift': draw(_shift), 'ptlist': draw(_bool)}
+            'rays': draw(g.local_points(1, 3)), 'shift': draw(_shift), 'ptlist': draw(_bool), 'dk': draw(_dk)}
 
 
 def oracle_jump(case):
@@ -396,10 +427,13 @@ def oracle_jump(case):
     # (a) Burgers circuit limit: two points DELTA*r above / below the cut half-plane (y = 0, x < 0).
     #     u is smooth on either side: |u(+-) - limit| <= DELTA r |grad u| ~ DELTA |b| g amp / 2pi  << TOL_JUMP |b|
     tol = TOL_JUMP * S.bn
+    delta = g.pow10(-case.get('dk', 9))                      # <= DELTA: the bound above holds a fortiori
+    if delta < DELTA:
+        labels.add('cut_closer_than_1e-9')
     for r, z in case['cut']:
         p0 = -r * S.m + z * S.xi
-        up = field(sol, 'displacement', p0 + DELTA * r * S.n, pl)
-        um = field(sol, 'displacement', p0 - DELTA * r * S.n, pl)
+        up = field(sol, 'displacement', p0 + delta * r * S.n, pl)
+        um = field(sol, 'displacement', p0 - delta * r * S.n, pl)
         close(np.abs(up - um - S.b).max(), tol, 'jump',
               lambda: 'u(x=-%g, y=0+) - u(x=-%g, y=0-) = %r, Burgers vector %r' % (r, r, up - um, S.b))
     # (b) continuity across every other ray, the point on the ray included (branch choices on the frame's axes)
@@ -413,6 +447,8 @@ def oracle_jump(case):
               lambda: 'u not continuous across the ray through local point %r: %r' % (loc, u))
         if loc[0] == 0.0 or loc[1] == 0.0:
             labels.add('ray_on_axis')
+        if g.near_axis(loc):
+            labels.add('ray_near_axis')
     # (c) nothing depends on the coordinate along the line; single point = row of an array evaluation
     sh = case['shift']
     for name, scale in (('displacement', S.bn), ('strain', None), ('stress', None)):
@@ -507,6 +543,8 @@ def oracle_kinematics(case):
         close(np.abs(S2[i] * lam - Sg[i]).max(), TOL_SCALE * S.amp * gg * sscale, 'scale_s', lambda: 'stress(%g x) != stress(x)/%g at %r' % (lam, lam, loc))
         if loc[0] == 0.0 or loc[1] == 0.0:
             labels.add('pt_on_axis')
+        if g.near_axis(loc):
+            labels.add('pt_near_axis')
         if gg > 5:
             labels.add('g>5')
     labels.add('ptlist' if pl else 'ptarray')
@@ -622,11 +660,13 @@ def oracle_energy(case):
 _prob_cov = g.problems()
 _rot = g11.rot_specs()
 _qc = st.integers(0, 23)
+_exactqr = st.sampled_from([0, 0, 0, 0, 0, 0, 0, 0, 1, 2, 3, 3])     # bit 0: Q, bit 1: R an exact signed permutation of the axes
 
 
 @st.composite
 def cov_cases(draw):
-    return {'prob': draw(_prob_cov), 'Q': draw(_rot), 'R': draw(_rot), 'Qc': draw(_qc), 'pts': draw(g.local_points(2, 4))}
+    return {'prob': draw(_prob_cov), 'Q': draw(_rot), 'R': draw(_rot), 'Qc': draw(_qc), 'pts': draw(g.local_points(2, 4)),
+            'Rc': draw(_qc), 'exactQR': draw(_exactqr)}
 
 
 def _cubic_group():
@@ -689,6 +729,15 @@ def oracle_covariance(case):
         # the crystal relative to the dislocation (transform' = R T Q^t) is general all the same.
         Q = CUBIC_GROUP[case.get('Qc', 0)]
         labels.add('Q_axis_permutation')
+    # exactly structured versions of the case: the crystal and / or the laboratory relabelled by one of the 24 signed
+    # permutations of the axes (no rounding in Q, R: whatever shortcut is taken for "nothing to rotate" is taken here)
+    ex = case.get('exactQR', 0)
+    if ex & 1:
+        Q = CUBIC_GROUP[case.get('Qc', 0)]
+        labels.add('Q_exact_permutation')
+    if ex & 2:
+        R = CUBIC_GROUP[case.get('Rc', 0)]
+        labels.add('R_exact_permutation')
     C6q = el.rotate_voigt(S.C6, Q)
     C6q = (C6q + C6q.T) / 2
     m2, n2 = R @ S.m, R @ S.n
@@ -704,7 +753,7 @@ def oracle_covariance(case):
         band = _floor_band(C6q) or _floor_band(S.C6s) or _floor_band(S.C6) or _floor_band(el.rotate_voigt(S.C6s, R))
         # the same for Burgers-vector components below 1e-8 of the largest (fields are linear in b; a component's field
         # can exceed the main one's by the anisotropy of K, hence the same cond-scaled allowance)
-        band = band or _floor_band(S.b) or _floor_band(R @ S.b)
+        band = band or _floor_band(S.b_raw) or _floor_band(R @ S.b_raw)
         compare(other, R, 'crystal rotated by Q, laboratory by R', band)
         labels.add('rotated')
         if el.rotation_angle_deg(R) > 5 and el.rotation_angle_deg(Q) > 5:
@@ -725,7 +774,7 @@ def oracle_covariance(case):
             labels.add('miller_vs_transform_refused')
             return labels
         require(other is not None, 'the problem is accepted with Miller indices but refused with the corresponding transform')
-        compare(other, np.eye(3), 'Miller indices replaced by the corresponding transform', _floor_band(S.C6s) or _floor_band(S.b))
+        compare(other, np.eye(3), 'Miller indices replaced by the corresponding transform', _floor_band(S.C6s) or _floor_band(S.b_raw))
         labels.add('miller_vs_transform')
     return labels
 
@@ -1000,6 +1049,27 @@ def same_outputs(base, now, what):
                 % (what, nm, d, d / sc if sc else float('inf'), a, b))
 
 
+def ledger_add(ledger, what, outs):
+    """result ledger: every array a call RETURNED is kept as the object it is, next to a private copy"""
+    for nm in sorted(outs):
+        raw = outs[nm][0] if isinstance(outs[nm], tuple) else outs[nm]
+        if isinstance(raw, np.ndarray):
+            ledger.append((what + ' ' + nm, raw, raw.copy()))
+
+
+def ledger_check(ledger, when):
+    """... and is re-judged, bit for bit, after whatever happens later (calls on the same and on other solutions, operations of
+    the caller): a result is a value, not a window on a workspace"""
+    for what, raw, cp in ledger:
+        require(raw.shape == cp.shape and raw.dtype == cp.dtype and raw.tobytes() == cp.tobytes(),
+                lambda: '%s: the array returned earlier by %s has changed:\nas returned\n%r\nnow\n%r' % (when, what, cp, raw))
+
+
+def _copy_arg(v):
+    import copy
+    return np.array(v) if isinstance(v, np.ndarray) else copy.deepcopy(v)
+
+
 def oracle_history(case):
     """the solution is a value: nothing the caller does afterwards with the objects it handed over, and nothing that is done
     with the solution (evaluating it, reading it in any order, building other solutions), changes any of its outputs; and
@@ -1060,7 +1130,8 @@ def oracle_history(case):
     labels.add('answer_' + name)
     # the answer is judged where the other clauses judge it (begin()): exact or accepted nearly isotropic media by the closed
     # form in the slip plane, Stroh away from isotropy; the invariance below holds for every answer
-    judged = not (S.near and not S.iso) and not (S.iso and not S.exact and S.dev == g.BAND) and not ('auto_fallback' in labels and prob['bsol'][1] != 0.0)
+    judged = not (S.near and not S.iso) and not (S.iso and not S.exact and S.dev == g.BAND) and not ('auto_fallback' in labels and prob['bsol'][1] != 0.0) \
+        and not S.bslack and not left_plane(S)
     P = positions(S, case['pts'])
     Pin = P.copy()
     if judged:
@@ -1080,6 +1151,10 @@ def oracle_history(case):
     require(np.array_equal(Pin, P), 'the position array was modified by the evaluation')
     again = read_outputs(sol, Pin, case['order'] + 1)
     same_outputs(base, again, 'reading the outputs a second time, in another order')
+    ledger = []
+    ledger_add(ledger, 'the first solution:', base)
+    ledger_add(ledger, 'the first solution (second reading):', again)
+    others = []
 
     # ---- history
     fns = {'stroh': Stroh, 'iso': IsotropicVolterraDislocation, 'auto': solve_volterra_dislocation}
@@ -1144,11 +1219,29 @@ def oracle_history(case):
                 other.stress(Pin)
                 labels.add('again_solved')
             except (ValueError, AssertionError):
+                other = None
                 labels.add('again_refused')                 # the overwritten arguments need not be a valid problem
+            # the caller RE-USES its objects for this next call: the answer must be the answer to what the objects hold NOW -
+            # the same as for private copies of them, which no earlier call has seen
+            kwc = {k_: (am.Box(vects=v.vects, origin=v.origin) if k_ == 'box' else _copy_arg(v)) for k_, v in kw.items()}
+            try:
+                fresh = fn(am.ElasticConstants(Cij=np.array(C.Cij)), _copy_arg(held['b']), **kwc)
+            except (ValueError, AssertionError):
+                fresh = None
+            require((other is None) == (fresh is None), lambda: '%s: built from the objects the caller had used before (and changed since), the '
+                    'solver %s; built from copies of these objects it %s' % (what, 'refuses' if other is None else 'answers', 'refuses' if fresh is None else 'answers'))
+            if other is not None:
+                require(type(other) is type(fresh), lambda: '%s: %s from the re-used objects, %s from copies of them' % (what, type(other).__name__, type(fresh).__name__))
+                o_out = read_outputs(other, Pin, case['order'] + 50 + k)
+                same_outputs(read_outputs(fresh, Pin, case['order'] + 50 + k), o_out,
+                             what + ': solution built from the re-used objects against the solution built from copies of them')
+                ledger_add(ledger, 'the solution of operation %d:' % k, o_out)
+                others.append((k, other, o_out, Pin.copy()))
+                labels.add('again_judged')
         elif kind == 'eval':
             Q = positions(S, op['pts'])
             for nm in ('displacement', 'strain', 'stress'):
-                field(sol, nm, Q, op['ptlist'])
+                ledger_add(ledger, 'the evaluation of operation %d:' % k, {nm: field(sol, nm, Q, op['ptlist'])})
         elif kind == 'pos':
             # the caller re-uses its position array for other points (1.5 times as far from the line, shifted along it),
             # evaluates, and puts the first points back
@@ -1165,11 +1258,21 @@ def oracle_history(case):
                 raw = base[nm][0]
                 if isinstance(raw, np.ndarray) and nm not in ('m', 'n', 'ξ', 'transform', 'burgers') and raw.flags.writeable:
                     raw[...] = 0
+            # (the ledger follows: what the caller wrote into these arrays has to stay there just the same)
+            ledger = [(w_, r_, r_.copy()) for (w_, r_, c_) in ledger]
             base = {nm: (v[1].copy(), v[1]) for nm, v in base.items()}
             what += ': the caller overwrote the arrays that the solution had returned (fields, K_tensor, p, A, L, k, C.Cij)'
         else:
             raise KeyError(kind)
-        same_outputs(base, read_outputs(sol, Pin, case['order'] + 2 + k), 'after ' + what)
+        now = read_outputs(sol, Pin, case['order'] + 2 + k)
+        same_outputs(base, now, 'after ' + what)
+        ledger_check(ledger, 'after ' + what)
+        ledger_add(ledger, 'the first solution (reading after operation %d):' % k, now)
+        for (k0, other, o_out, P0) in others:
+            if k0 < k:
+                same_outputs(o_out, read_outputs(other, P0, case['order'] + 50 + k0), 'after %s: the solution built in operation %d' % (what, k0))
+    ledger_check(ledger, 'at the end of the history')
+    labels.add('ledger>=60' if len(ledger) >= 60 else 'ledger<60')
     for a in applied:
         labels.add('applied_' + a)
     if applied:
@@ -1185,6 +1288,508 @@ def oracle_history(case):
 
 def jshort(op):
     return ', '.join('%s=%r' % (k, v) for k, v in sorted(op.items()) if k != 'pts')
+
+
+# ----------------------------------------------------------------------------- clause: forms (storage and input dtypes)
+
+KEY_AXES = 'C12:orientation:transform-axes-float32-float16:normalised-in-the-storage-dtype'
+NARROW_FLOAT = ('f4', '>f4', 'f2', 'np_f4')
+AXES_REFUSALS = ('axes are not orthogonal', 'axes are not right-handed')
+
+
+def narrow(a, code):
+    """the values a, exactly, in the form `code` of gens_c12.DT (an array of that dtype, a nested list of numpy scalars, a nested
+    list of Python numbers); None when they are not exactly representable in it"""
+    a64 = np.array(a, dtype=float)
+    if code == 'list':
+        return a64.tolist() if not np.all(a64 == np.round(a64)) else a64.astype(int).tolist()
+    if code in ('np_int', 'np_f4'):
+        t = narrow(a, 'i8' if code == 'np_int' else 'f4')
+        if t is None:
+            return None
+        return [x for x in t] if t.ndim == 1 else [[x for x in r] for r in t]
+    with np.errstate(all='ignore'):
+        t = a64.astype(np.dtype(code))
+        back = t.astype(float)
+    if not (np.all(np.isfinite(back)) and np.array_equal(back, a64)):
+        return None
+    return t
+
+
+def _bits(v):
+    a = np.asarray(v)
+    return (str(a.dtype), a.shape, a.tobytes(), type(v).__name__)
+
+
+def _forms_run(case, dt, labels):
+    import atomman as am
+    prob = case['prob']
+    S = setup(prob)
+    b0, kw0 = solver_args(prob, S)
+    if S.bslack:
+        labels.add('b_component_on_tol_threshold')
+        return
+    # ---- every array-valued argument in the form drawn for it (where its values are exactly representable there)
+    applied = {}
+
+    def form(key, v):
+        t = narrow(v, dt[key])
+        if t is None:
+            return np.array(v, dtype=float)
+        applied[key] = dt[key]
+        return t
+
+    args = {'b': form('b', b0)}
+    kw = dict(kw0)
+    for key in ('m', 'n'):
+        if key in kw and not isinstance(kw[key], str):
+            args[key] = kw[key] = form(key, kw[key])
+    for arg in ('transform', 'axes'):
+        if arg in kw:
+            args['T'] = kw[arg] = form('T', kw[arg])
+    if 'ξ_uvw' in kw:
+        args['uvw'] = kw['ξ_uvw'] = form('uvw', kw['ξ_uvw'])
+        args['hkl'] = kw['slip_hkl'] = form('hkl', kw['slip_hkl'])
+    for key, code in applied.items():
+        labels.add('dt_' + code)
+        if code not in ('f8', 'list'):
+            labels.add('narrow_' + key)
+    if any(c not in ('f8', 'list') for c in applied.values()):
+        labels.add('narrow_argument')
+    if any(c in ('u1', 'u2', 'u8', 'bool') for c in applied.values()):
+        labels.add('unsigned_argument')
+    before = {k: _bits(v) for k, v in args.items()}
+    C = am.ElasticConstants(Cij=np.array(S.C6, dtype=float))
+    sol = call_solver(prob['solver'], S.C6, args['b'], kw, S.exact, None if S.iso else S.gap, S.dev, Cobj=C)
+    for k in sorted(args):
+        require(_bits(args[k]) == before[k], lambda: 'solving changed the caller\'s %s (handed over as %s): %r' % (k, before[k][0], args[k]))
+    # the same values as float64 arrays: the reference call
+    kwf = {k: (np.array(v, dtype=float) if k in ('m', 'n', 'transform', 'axes') and not isinstance(v, str) else
+               np.array(v, dtype=int) if k in ('ξ_uvw', 'slip_hkl') else v) for k, v in kw.items()}
+    ref = call_solver(prob['solver'], S.C6, np.array(args['b'], dtype=float), kwf, S.exact, None if S.iso else S.gap, S.dev)
+    require((sol is None) == (ref is None), lambda: 'the solver %s the problem with the arguments in the forms %r and %s it with the same values as '
+            'float64 / int64 arrays' % ('refuses' if sol is None else 'accepts', applied, 'refuses' if ref is None else 'accepts'))
+    if sol is None:
+        labels.add('refusal')
+        return
+    labels.add('accepted')
+    name = type(sol).__name__
+    if prob['solver'] == 'auto' and not S.exact and name == 'IsotropicVolterraDislocation':
+        require(S.dev <= BAND_HI, lambda: 'solve_volterra_dislocation returned the isotropic class for a medium whose constants are '
+                '%.3g (relative) away from their isotropic average' % S.dev)
+        to_iso_mode(S)
+        labels.add('auto_fallback')
+    judged = not (S.near and not S.iso) and not (S.iso and not S.exact and S.dev == g.BAND) and not ('auto_fallback' in labels and prob['bsol'][1] != 0.0) \
+        and not left_plane(S)
+    # ---- field points: Cartesian coordinates as drawn (integers / quarters up to the limits of the dtype), off the line and the cut
+    P = np.array([p for p in case['pts'] if not (float(np.dot(p, S.n)) == 0.0 and float(np.dot(p, S.m)) <= 0.0)], dtype=float)
+    if len(P) == 0:
+        labels.add('no_points')
+        return
+    Pn = narrow(P, dt['pos'])
+    if Pn is None:
+        Pn = P.copy()
+    else:
+        labels.add('dt_pos_' + dt['pos'])
+        if dt['pos'] not in ('f8', 'list'):
+            labels.add('narrow_positions')
+        lim = g.POS_RANGE.get(dt['pos'])
+        if lim and (P.max() >= lim[1] - 1 or (lim[0] < 0 and P.min() <= lim[0] + 1)):
+            labels.add('positions_at_dtype_limit')
+    pb = _bits(Pn)
+    if judged:
+        Cg = check_header(sol, S, prob)
+        labels.add('judged')
+    base = read_outputs(sol, P, case['order'])
+    same_outputs(read_outputs(ref, P, case['order']), base, 'arguments in the forms %r against the same values as float64 / int64 arrays' % (applied,))
+    ledger = []
+    ledger_add(ledger, 'the solution:', base)
+    rs = np.hypot(P @ S.m, P @ S.n)
+    for nm in ('displacement', 'strain', 'stress'):
+        want = np.asarray(base[nm][1]).reshape((len(P),) + ((3,) if nm == 'displacement' else (3, 3)))
+        if want.dtype.kind == 'c':
+            want = want.real
+        got = field(sol, nm, P, given=Pn)
+        require(_bits(Pn) == pb, lambda: '%s() changed the position array handed over as %s' % (nm, pb[0]))
+        require(got.dtype == np.float64, lambda: '%s() of positions handed over as %s returns dtype %s' % (nm, pb[0], got.dtype))
+        sc = S.bn * (1.0 + np.abs(np.log(rs))) if nm == 'displacement' else np.maximum(np.abs(want).reshape(len(P), -1).max(axis=1), 1e-300)
+        e = _rel(got, want, sc)
+        i = int(np.argmax(e))
+        close(e[i], 1e-13, 'forms_' + nm, lambda: '%s of the positions %r handed over as %s differs from %s of the same positions as float64 at %r (relative to '
+              'that point\'s own magnitude)' % (nm, P.tolist(), pb[0], nm, P[i].tolist()))
+        one = field(sol, nm, P[-1], given=Pn[-1])
+        close(_rel(one[None], field(sol, nm, P[-1])[None], sc[-1:])[0], 1e-13, 'forms_single_' + nm, lambda: '%s of the single position %r handed over as %s differs from the '
+              'float64 evaluation' % (nm, P[-1].tolist(), pb[0]))
+        ledger_add(ledger, 'the evaluation of narrow positions:', {nm: got, nm + '_single': one})
+    if judged:
+        E, Sg = field(sol, 'strain', P, given=Pn), field(sol, 'stress', P, given=Pn)
+        hooke = np.einsum('ijkl,nkl->nij', el.voigt_to_tensor(Cg), E)
+        esc = np.maximum(np.abs(E).reshape(len(P), -1).max(axis=1), S.bn / (2 * math.pi * rs))
+        e = _rel(Sg, hooke, 9 * S.cmax * esc)
+        close(e.max(), TOL_HOOKE * S.amp, 'forms_hooke', 'stress is not C:strain')
+        K = np.asarray(sol.K_tensor, dtype=float)
+        tr = field(sol, 'stress', 2.0 * S.m) @ S.n
+        close(np.abs(tr - K @ S.b / (4 * math.pi)).max(), (1e-7 + 1e-10 * S.amp) * float(np.abs(K).max()) * S.bn / (4 * math.pi), 'forms_traction',
+              'traction on the slip plane at x = 2 is not K.b/(2 pi x)')
+        if S.iso:
+            refi = vr.iso_reference(S.mu, S.nu, float(S.b @ S.m), float(S.b @ S.xi), S.m, S.n, S.xi, P)
+            for nm, F in (('strain', E), ('stress', Sg)):
+                sc = np.abs(refi[nm]).reshape(len(P), -1).max(axis=1) + (S.bn / (2 * math.pi * rs) if nm == 'strain' else 0.0)
+                close(_rel(F, refi[nm], sc).max(), 1e-11, 'forms_iso_' + nm, lambda: '%s differs from the Hirth-Lothe closed form' % nm)
+            labels.add('closed_form')
+    # ---- the caller re-uses what it handed over (and what it got): nothing of the solution moves
+    done = 0
+    for idx, k in enumerate(sorted(args)):
+        v = args[k]
+        if isinstance(v, np.ndarray) and v.flags.writeable and (case['mut'] >> (idx % 3)) & 1:
+            old = v.copy()
+            v[...] = np.roll(old, 1, axis=0)
+            if np.array_equal(v, old):
+                v[...] = (old == 0)
+            done += 1
+    if isinstance(Pn, np.ndarray):
+        Pn[...] = Pn[::-1].copy() if len(Pn) > 1 else 1
+        done += 1
+    if done:
+        labels.add('caller_overwrote')
+    same_outputs(base, read_outputs(sol, P, case['order'] + 1), 'after the caller overwrote the arrays it had handed over (%r)' % (applied,))
+    ledger_check(ledger, 'after the later evaluations and the caller\'s overwriting its arrays')
+    if g.nontrivial(prob) and judged:
+        labels.add('nt')
+
+
+def oracle_forms(case):
+    """arguments and positions in narrow / unsigned / big-endian / half- and single-precision / numpy-scalar forms, values exactly
+    representable: the answer is the answer to the same values as float64 arrays (and is judged as such)"""
+    prob = case['prob']
+    labels = g.labels_of(prob)
+    dt = dict(case['dt'])
+    try:
+        _forms_run(case, dt, labels)
+    except (Violation, ValueError) as e:
+        # transform / axes as a float32 / float16 array: known finding KEY_AXES when the same case with that one argument as
+        # float64 passes everything
+        tkey = [a for a in ('transform', 'axes') if a == prob['orient'].get('via')]
+        isnarrowT = prob['orient']['kind'] == 'rows' and dt['T'] in NARROW_FLOAT and narrow(np.array(prob['orient']['rows']), dt['T']) is not None
+        if not isnarrowT or (isinstance(e, ValueError) and str(e) not in AXES_REFUSALS):
+            raise
+        lab2 = set()
+        _forms_run(case, dict(dt, T='f8'), lab2)
+        detail = e.detail if isinstance(e, Violation) and hasattr(e, 'detail') else '%s(%s)' % (type(e).__name__, e)
+        raise Violation('%s = integer-valued orthogonal rows %r handed over as %s: %s (with the same rows as float64 everything holds)'
+                        % (tkey[0] if tkey else 'transform', prob['orient']['rows'], dt['T'], detail), key=KEY_AXES)
+    return labels
+
+
+# ----------------------------------------------------------------------------- clause: units (working-unit configurations)
+# The solvers hold plain numbers in working units and convert nothing; what depends on the configuration are the NUMBERS: a
+# stiffness of 100 GPa is 0.62 (default: eV/angstrom^3), 1e11 (SI) or 1e-16 (nm, kg, J).  A case is a PHYSICAL problem (stiffness
+# numbers of the case = GPa, lengths = angstrom); under a configuration it is expressed in working units with my own sizes of a
+# GPa and an angstrom (products of numericalunits attributes), solved and judged there exactly as elsewhere (header, Hooke,
+# traction, closed forms), and compared - made dimensionless - with the same problem solved earlier in the same process under
+# `pre` (the default configuration, another one, or nothing).  Everything the earlier stage returned is in the ledger.
+
+from .. import gens_c08 as G8
+
+KEY_UNITS = 'C12:units:stroh-self-checks-absolute-tol:stiffness-numbers-far-from-unity'
+
+
+def _own_units():
+    import numericalunits as nu
+    return 1e9 * nu.kg / (nu.m * nu.s ** 2), nu.angstrom       # (GPa, angstrom) in the working units active now
+
+
+def _restore_units():
+    import atomman.unitconvert as uc
+    uc.reset_units(length='angstrom', mass='amu', energy='eV', charge='e')
+
+
+_upre = st.sampled_from(['default', 'default', 'other', 'none'])
+# configurations under which stiffness numbers stay within a few decades of unity (until KEY_UNITS is repaired Stroh answers
+# under these only): every second W is one of them
+_MODERATE = st.sampled_from([{'kind': 'named', 'units': u} for u in (
+    {'length': 'nm'}, {'length': 'nm', 'energy': 'eV'}, {'length': 'aBohr'}, {'length': 'pm'}, {'length': 'nm', 'energy': 'kcal'},
+    {'length': 'aBohr', 'mass': 'g'}, {'length': 'nm', 'time': 'ps'}, {'length': 'angstrom', 'energy': 'kcal', 'charge': 'C'})])
+
+
+@st.composite
+def units_cases(draw):
+    W, pk, Pc, Wm = draw(G8.S_CFG), draw(_upre), draw(G8.S_CFG), draw(_MODERATE)
+    if draw(_bool):
+        W = Wm
+    W = G8._other_than(W, G8.DEFAULT_CFG)
+    pre = G8.DEFAULT_CFG if pk == 'default' else G8._other_than(Pc, W) if pk == 'other' else None
+    prob = dict(draw(_prob_any))
+    prob['cscale'] = 1.0                                     # the case's stiffness numbers are GPa
+    return {'prob': prob, 'plan': {'pre': pre, 'W': W}, 'pts': draw(g.local_points(2, 3)), 'order': draw(st.integers(0, 10 ** 6))}
+
+
+def _cfg_text(cfg):
+    if cfg['kind'] == 'named':
+        return 'reset_units(%s)' % ', '.join('%s=%r' % kv for kv in cfg['units'].items())
+    return 'reset_units(seed=%r)' % ('SI' if cfg['kind'] == 'SI' else cfg['seed'])
+
+
+def _units_stage(case, cfg, labels, last):
+    """the physical problem under the configuration that is active now.  Returns None (refusal) or a dict of the dimensionless
+    outputs; raises the keyed finding when Stroh refuses well separated roots under a non-default configuration"""
+    import atomman as am
+    from atomman.defect import Stroh, IsotropicVolterraDislocation, solve_volterra_dislocation
+    prob = case['prob']
+    GPa, A = _own_units()
+    S = setup(prob)
+    b0, kw = solver_args(prob, S)
+    # the same problem in working units: stiffness x GPa, Cartesian lengths x angstrom (lattice coordinates stay, the cell scales)
+    for nm in ('C6', 'C6s', 'C4s', 'cmax'):
+        setattr(S, nm, getattr(S, nm) * GPa)
+    if S.iso:
+        S.mu = S.mu * GPa
+    for nm in ('b', 'b_cart', 'b_raw', 'bn', 'bslack'):
+        setattr(S, nm, getattr(S, nm) * A)
+    o = prob['orient']
+    if 'box' in kw:
+        kw['box'] = am.Box(vects=g.box_vects(o['box']) * A)
+        bw = b0
+    else:
+        bw = (np.asarray(b0, dtype=float) * A).tolist() if prob['aslist'] else np.asarray(b0, dtype=float) * A
+    fn = {'stroh': Stroh, 'iso': IsotropicVolterraDislocation, 'auto': solve_volterra_dislocation}[prob['solver']]
+    default = abs(GPa / 0.006241509074460762 - 1) < 1e-9 and abs(A - 1) < 1e-12
+    try:
+        sol = fn(am.ElasticConstants(Cij=np.array(S.C6)), bw, **kw)
+    except ValueError as e:
+        msg = str(e)
+        gap = None if S.iso else S.gap
+        if prob['solver'] == 'iso' and msg == ISO_REFUSAL and S.dev > BAND_LO:
+            return None, S
+        refused = (prob['solver'] == 'stroh' and msg in STROH_REFUSALS) or (prob['solver'] == 'auto' and not S.exact and msg == ISO_REFUSAL
+                                                                             and S.dev > BAND_LO)
+        if not refused:
+            raise
+        if gap is not None and gap >= GAP_REFUSAL and kw.get('tol', 1e-8) >= 1e-8:
+            num = S.cmax
+            require(not (default or 1e-3 < num < 1e5),
+                    lambda: '%s refused (%s) a positive-definite problem whose roots p are separated by %.3g' % (prob['solver'], msg, gap))
+            # known finding: the self-checks (and the realness test of K_tensor) compare quantities that carry the unit of a
+            # stiffness or of a compliance with the absolute tol = 1e-8
+            raise Violation('%s refuses (%s) the problem under %s, where its stiffness numbers are of order %.3g (1 GPa = %.3g): roots p separated by %.3g; '
+                            'the same physical problem is solved under the default working units' % (prob['solver'], msg, _cfg_text(cfg), num, GPa, gap), key=KEY_UNITS)
+        return None, S
+    name = type(sol).__name__
+    if prob['solver'] == 'auto' and not S.exact and name == 'IsotropicVolterraDislocation':
+        require(S.dev <= BAND_HI, lambda: 'solve_volterra_dislocation returned the isotropic class for a medium whose constants are '
+                '%.3g (relative) away from their isotropic average' % S.dev)
+        if not S.near and S.gap >= GAP_REFUSAL:
+            # the dispatcher fell back because Stroh refused - the same finding - and the isotropic class took a crystal?  (it
+            # cannot: dev > band for crystals; kept for completeness)
+            raise Violation('solve_volterra_dislocation answers with the isotropic class under %s' % _cfg_text(cfg), key=KEY_UNITS)
+        to_iso_mode(S)
+        S.C6s, S.C4s, S.mu = S.C6s, S.C4s, S.mu               # (to_iso_mode works on the scaled S.C6: already in working units)
+        labels.add('auto_fallback')
+    judged = not (S.near and not S.iso) and not (S.iso and not S.exact and S.dev == g.BAND) and not ('auto_fallback' in labels and prob['bsol'][1] != 0.0) \
+        and not S.bslack and not left_plane(S)
+    P = positions(S, case['pts']) * A
+    out = {'name': name, 'judged': judged, 'sol': sol, 'P': P}
+    if judged:
+        Cg = check_header(sol, S, prob)
+        E, Sg = field(sol, 'strain', P), field(sol, 'stress', P)
+        hooke = np.einsum('ijkl,nkl->nij', el.voigt_to_tensor(Cg), E)
+        rs = np.array([math.hypot(l[0], l[1]) for l in case['pts']]) * A
+        esc = np.maximum(np.abs(E).reshape(len(P), -1).max(axis=1), S.bn / (2 * math.pi * rs))
+        close(_rel(Sg, hooke, 9 * S.cmax * esc).max(), TOL_HOOKE * S.amp, 'units_hooke', 'stress is not C:strain')
+        K = np.asarray(sol.K_tensor, dtype=float)
+        require(K.dtype.kind == 'f' and bool(np.all(np.isfinite(K))) and float(np.linalg.eigvalsh((K + K.T) / 2)[0]) > 0, lambda: 'K_tensor not real positive definite: %r' % (K,))
+        x = 2.0 * A
+        tr = field(sol, 'stress', x * S.m) @ S.n
+        close(np.abs(tr - K @ S.b / (2 * math.pi * x)).max(), (1e-7 + 1e-10 * S.amp) * float(np.abs(K).max()) * S.bn / (2 * math.pi * x), 'units_traction',
+              'traction on the slip plane at x = 2 angstrom is not K.b/(2 pi x)')
+        if S.iso:
+            refi = vr.iso_reference(S.mu, S.nu, float(S.b @ S.m), float(S.b @ S.xi), S.m, S.n, S.xi, P)
+            for nm, F in (('strain', E), ('stress', Sg)):
+                sc = np.abs(refi[nm]).reshape(len(P), -1).max(axis=1) + (S.bn / (2 * math.pi * rs) if nm == 'strain' else 0.0)
+                close(_rel(F, refi[nm], sc).max(), 1e-11, 'units_iso_' + nm, lambda: '%s differs from the Hirth-Lothe closed form' % nm)
+    raw = read_outputs(sol, P, case['order'])
+    out['raw'] = raw
+    u = field(sol, 'displacement', P)
+    out['dimless'] = {'burgers': np.asarray(sol.burgers, dtype=float) / A, 'transform': np.asarray(sol.transform, dtype=float),
+                      'K_tensor': np.asarray(sol.K_tensor, dtype=float) / GPa, 'K_coeff': np.array(float(sol.K_coeff) / GPa),
+                      'preln': np.array(float(sol.preln) / (GPa * A * A)), 'strain': field(sol, 'strain', P), 'stress': field(sol, 'stress', P) / GPa,
+                      'du': (u - u[0]) / A, 'C': np.asarray(sol.C.Cij, dtype=float) / GPa}
+    return out, S
+
+
+def oracle_units(case):
+    import atomman.unitconvert as uc
+    prob = case['prob']
+    plan = case['plan']
+    labels = g.labels_of(prob)
+    labels.add('units_' + plan['W']['kind'])
+    ledger = []
+    try:
+        first = None
+        if plan['pre'] is not None:
+            G8.apply_units(uc, plan['pre'])
+            first, S1 = _units_stage(case, plan['pre'], labels, None)
+            labels.add('pre_default' if plan['pre'] == G8.DEFAULT_CFG else 'pre_other')
+            if first is not None:
+                ledger_add(ledger, 'the solution under %s:' % _cfg_text(plan['pre']), first['raw'])
+        G8.apply_units(uc, plan['W'])
+        GPa, A = _own_units()
+        second, S = _units_stage(case, plan['W'], labels, first)
+        num = S.cmax
+        labels.add('stiffness_numbers>1e5' if num > 1e5 else 'stiffness_numbers<1e-3' if num < 1e-3 else 'stiffness_numbers_moderate')
+        if abs(A - 1) > 1e-6:
+            labels.add('angstrom_differs')
+        if first is not None:
+            # what the earlier stage returned is what it returned: a reset of the units moves no array and no solution
+            ledger_check(ledger, 'after %s and the solution there' % _cfg_text(plan['W']))
+            same_outputs(first['raw'], read_outputs(first['sol'], first['P'], case['order']), 'the solution built under %s, read again after %s'
+                         % (_cfg_text(plan['pre']), _cfg_text(plan['W'])))
+            labels.add('ledger_across_reset')
+        if second is None:
+            labels.add('refusal')
+            return labels
+        labels.add('accepted')
+        labels.add('units_answer_' + second['name'])
+        if second['judged']:
+            labels.add('judged')
+            if g.nontrivial(prob):
+                labels.add('nt')
+        if first is not None and first['name'] == second['name'] and first['judged'] and second['judged']:
+            # the same physical problem under two configurations: dimensionless outputs agree (floors are relative; an entry or a
+            # component next to a floor may be kept under one configuration and dropped under the other: covariance's allowance)
+            band = (not S.iso and (_floor_band(S.C6) or _floor_band(S.C6s))) or _floor_band(S.b_raw)
+            tol = TOL_COV * S.amp + (2e-7 * float(np.linalg.cond(S.C6)) if band else 0.0)
+            a, b = first['dimless'], second['dimless']
+            for nm in sorted(a):
+                sc = max(float(np.abs(a[nm]).max()), S.bn / A if nm in ('du', 'burgers') else 0.0)
+                f = 10.0 if nm == 'du' else 1.0
+                close(np.abs(a[nm] - b[nm]).max(), (1.5e-7 if nm in ('K_tensor', 'K_coeff', 'preln', 'C') else 0.0) * sc + f * tol * sc, 'units_cov_' + nm,
+                      lambda: '%s (made dimensionless with my own GPa and angstrom) differs between %s and %s' % (nm, _cfg_text(plan['pre']), _cfg_text(plan['W'])))
+            labels.add('two_configurations_compared')
+    finally:
+        _restore_units()
+    return labels
+
+
+# ----------------------------------------------------------------------------- clause: combos (enumerated option combinations)
+# The options that write the same state of a solution object - how the orientation is spelled (none / transform / axes / Miller
+# indices without a cell, with a cell, with four indices), how m and n are spelled (default / strings / vectors / one of each /
+# signed axes; with and without cart_axes), tol - in every ORDERED pair: the object is solved with the first setting, then
+# solve() is called on it with the second (another medium, another Burgers vector); it must then be indistinguishable from an
+# object built with the second setting alone, which is judged against my own numbers.
+
+ORIENT_OPTS = ('none', 'transform', 'axes', 'miller_unit', 'miller_box', 'miller_box4')
+MN_OPTS = ('default', 'str_cart', 'vec', 'sv', 'str', 'axis', 'axis_cart')
+TOL_PAIRS = ((None, None), (None, 1e-6), (1e-6, None), (1e-6, 1e-10))
+
+
+def _combo_problem(cls, oo, mo, tol, v):
+    """one of two fixed physical problems (v = 0, 1) of the solver class, spelled with the options (oo, mo, tol)"""
+    if cls == 'iso':
+        C = [{'kind': 'named', 'system': 'isotropic', 'C': {'E': 211.0, 'nu': 0.29}},
+             g._with_eps({'kind': 'neariso', 'E': 130.0, 'nu': 0.34, 'sys': 'cubic', 'perm': 0, 'd': [1.0, 0.0, 0.0, -0.5, 0.0, 0.0, 0.3, 0.0, 0.0], 'q': 0.5})][v]
+        bsol = [[1.5, 0.0, -2.0], [-2.5, 0.0, 0.75]][v]
+    else:
+        C = [{'kind': 'named', 'system': 'cubic', 'C': {'C11': 170.0, 'C12': 120.0, 'C44': 75.0}, 'iso_mix': 0.0},
+             {'kind': 'named', 'system': 'orthorhombic', 'C': {'C11': 160.0, 'C22': 190.0, 'C33': 181.0, 'C12': 90.0, 'C13': 66.0, 'C23': 72.0,
+                                                               'C44': 46.5, 'C55': 55.0, 'C66': 39.0}, 'iso_mix': 0.0}][v]
+        bsol = [[1.5, 0.0, -2.0], [-2.5, 0.7, 0.75]][v]
+    if oo == 'none':
+        o = {'kind': 'none'}
+    elif oo in ('transform', 'axes'):
+        o = {'kind': 'transform', 'rot': [[[1, 2, -2], 37.0], [[-3, 1, 1], 112.0]][v], 'rowscale': [[2.0, 0.5, 1.0], [1.0, 3.7, 0.5]][v], 'via': oo}
+    else:
+        box = {'miller_unit': {'family': 'unit', 'abc': [1.0, 1.0, 1.0, 90.0, 90.0, 90.0]},
+               'miller_box': [{'family': 'orthorhombic', 'abc': [3.1, 4.3, 5.2, 90.0, 90.0, 90.0]}, {'family': 'monoclinic', 'abc': [3.3, 4.1, 6.2, 90.0, 104.0, 90.0]}][v],
+               'miller_box4': {'family': 'hexagonal', 'abc': [[3.2, 3.2, 5.2, 90.0, 90.0, 120.0], [2.9, 2.9, 4.7, 90.0, 90.0, 120.0]][v]}}[oo]
+        uvw, hkl = [([1, 1, -2], [1, 1, 1]), ([1, 0, 1], [0, 2, 0])][v]
+        if oo == 'miller_box4':
+            uvw, hkl = [([1, 1, 0], [0, 0, 1]), ([1, 0, 1], [1, -2, -1])][v]       # three-index values; handed over with four
+        o = {'kind': 'miller', 'box': box, 'uvw': uvw, 'hkl': hkl, 'four': oo == 'miller_box4'}
+    if mo == 'default':
+        mn = {'kind': 'default'}
+    elif mo in ('str', 'str_cart', 'sv'):
+        pair = [('z', 'x'), ('y', 'z')][v]
+        mn = {'kind': 'str', 'm': pair[0], 'n': pair[1], 'pass': 'sv' if mo == 'sv' else 'ss'}
+    elif mo == 'vec':
+        mn = {'kind': 'vec', 'rot': [[[1, 1, 3], 40.0], [[2, -1, 0], 115.0]][v]}
+    else:
+        mn = {'kind': 'axis', 'm': [[0, 1, 0], [0, 0, 1]][v], 'n': [[0, 0, 1], [1, 0, 0]][v]} if mo == 'axis_cart' else \
+             {'kind': 'axis', 'm': [[0, -1, 0], [0, 0, 1]][v], 'n': [[0, 0, 1], [-1, 0, 0]][v]}
+    prob = {'C': C, 'cscale': [1.0, g.EV_A3][v], 'solver': cls, 'mn': mn, 'orient': o, 'bsol': bsol, 'aslist': bool(v)}
+    if mo.endswith('_cart'):
+        prob['cart_axes'] = True
+    if tol is not None:
+        prob['tol'] = tol
+    return prob
+
+
+def combos_enumerate(tier):
+    mns = MN_OPTS if tier != 'quick' else MN_OPTS[:4]
+    cases = []
+    n = 0
+    for cls in ('stroh', 'iso'):
+        for o1 in ORIENT_OPTS:
+            for o2 in ORIENT_OPTS:
+                for m1 in mns:
+                    for m2 in mns:
+                        tps = TOL_PAIRS if tier != 'quick' else (TOL_PAIRS[n % 4],)
+                        for (t1, t2) in tps:
+                            # the second setting describes the OTHER physical problem (v), so that anything left over from the
+                            # first solve shows; which of the two comes first alternates
+                            v = n % 2
+                            cases.append({'cls': cls, 'first': _combo_problem(cls, o1, m1, t1, v), 'second': _combo_problem(cls, o2, m2, t2, 1 - v),
+                                          'opts': [o1, m1, o2, m2]})
+                            n += 1
+    return cases
+
+
+def oracle_combos(case):
+    import atomman as am
+    p1, p2 = case['first'], case['second']
+    o1, m1, o2, m2 = case['opts']
+    labels = {'cls_' + case['cls'], 'first_' + o1, 'second_' + o2, 'first_mn_' + m1, 'second_mn_' + m2,
+              'orient_%s_then_%s' % (o1, o2) if o1 != o2 else 'orient_same', 'tol_%s_then_%s' % (p1.get('tol'), p2.get('tol'))}
+    S1, S2 = setup(p1), setup(p2)
+    b1, kw1 = solver_args(p1, S1)
+    b2, kw2 = solver_args(p2, S2)
+    pts = [[1.0, 2.0, 0.5], [-3.0, 1.0, 0.0], [2.0, -2.0, 1.0]]
+    P1, P2 = positions(S1, pts), positions(S2, pts)
+    # ---- first setting
+    sol = call_solver(case['cls'], S1.C6, b1, kw1, S1.exact, None if S1.iso else S1.gap, S1.dev)
+    require(sol is not None, 'the first problem is refused')
+    check_header(sol, S1, p1)
+    out1 = read_outputs(sol, P1, 1)
+    ledger = []
+    ledger_add(ledger, 'the object solved with the first setting:', out1)
+    # ---- second setting on the same object, and alone
+    sol.solve(am.ElasticConstants(Cij=np.array(S2.C6, dtype=float)), b2, **kw2)
+    out2 = read_outputs(sol, P2, 2)
+    b2f, kw2f = solver_args(p2, S2)
+    fresh = call_solver(case['cls'], S2.C6, b2f, kw2f, S2.exact, None if S2.iso else S2.gap, S2.dev)
+    require(fresh is not None, 'the second problem is refused')
+    Cg = check_header(fresh, S2, p2)
+    same_outputs(read_outputs(fresh, P2, 2), out2, 'solve() with the second setting (%s, %s, tol %r) on an object first solved with (%s, %s, tol %r), against an object '
+                 'built with the second setting alone' % (o2, m2, p2.get('tol'), o1, m1, p1.get('tol')))
+    ledger_check(ledger, 'after solve() with the second setting')
+    # the fresh object against my own numbers
+    E, Sg = field(fresh, 'strain', P2), field(fresh, 'stress', P2)
+    hooke = np.einsum('ijkl,nkl->nij', el.voigt_to_tensor(Cg), E)
+    rs = np.array([math.hypot(l[0], l[1]) for l in pts])
+    esc = np.maximum(np.abs(E).reshape(len(P2), -1).max(axis=1), S2.bn / (2 * math.pi * rs))
+    close(_rel(Sg, hooke, 9 * S2.cmax * esc).max(), TOL_HOOKE * S2.amp, 'combo_hooke', 'stress is not C:strain')
+    K = np.asarray(fresh.K_tensor, dtype=float)
+    tr = field(fresh, 'stress', 2.0 * S2.m) @ S2.n
+    close(np.abs(tr - K @ S2.b / (4 * math.pi)).max(), (1e-7 + 1e-10 * S2.amp) * float(np.abs(K).max()) * S2.bn / (4 * math.pi), 'combo_traction',
+          'traction on the slip plane at x = 2 is not K.b/(2 pi x)')
+    up = field(fresh, 'displacement', -1.5 * S2.m + DELTA * 1.5 * S2.n)
+    um = field(fresh, 'displacement', -1.5 * S2.m - DELTA * 1.5 * S2.n)
+    close(np.abs(up - um - S2.b).max(), TOL_JUMP * S2.bn, 'combo_jump', lambda: 'u(0+) - u(0-) = %r, Burgers vector %r' % (up - um, S2.b))
+    # a second object built with the FIRST setting after all this: nothing of the second setting lives outside the objects
+    again = call_solver(case['cls'], S1.C6, b1, kw1, S1.exact, None if S1.iso else S1.gap, S1.dev)
+    same_outputs(out1, read_outputs(again, P1, 1), 'an object built with the first setting after the second had been used, against the first one')
+    labels.add('nt')
+    return labels
 
 
 # ----------------------------------------------------------------------------- clause: iso_limit
@@ -1206,7 +1811,11 @@ def oracle_iso_limit(case):
     b, kw = solver_args(prob, S)
     bs = prob['bsol']
     P = positions(S, case['pts'])
-    ref = vr.iso_reference(S.mu, S.nu, bs[0], bs[2], S.m, S.n, S.xi, P)
+    if S.bslack or left_plane(S):
+        labels.add('b_component_on_tol_threshold' if S.bslack else 'b_left_slip_plane_by_tol')         # see begin()
+        return labels
+    # (Burgers components below the documented tol = 1e-8 of the largest are dropped by the solver: S.b is the vector that is left)
+    ref = vr.iso_reference(S.mu, S.nu, float(S.b @ S.m), float(S.b @ S.xi), S.m, S.n, S.xi, P)
     rmin = min(math.hypot(l[0], l[1]) for l in case['pts'])
     Ke = S.mu / (1 - S.nu)
     Kiso = Ke * (np.outer(S.m, S.m) + np.outer(S.n, S.n)) + S.mu * np.outer(S.xi, S.xi)
@@ -1294,50 +1903,55 @@ _ACC = {'accepted': 0.85}
 _REF = {'refusal': 0.12}
 
 CLAUSES = [
-    Clause('jump', oracle_jump, jump_cases, quick=5400, thorough=90000,
+    Clause('jump', oracle_jump, jump_cases, quick=4800, thorough=96000,
            min_share=dict(_ACC, nt=0.2, solver_stroh=0.24, solver_iso=0.12, solver_auto=0.13, orient_miller=0.19, mn_vec=0.27,
                           mn_str=0.11, mn_str_and_vector=0.04, ray_on_axis=0.27, b_tiny_component=0.025, int_positions=0.06,
                           ptlist=0.19, four_index=0.01, via_axes=0.06, closed_form_on_neariso=0.045, neariso_via_auto=0.008,
-                          neariso_via_iso=0.034, neariso_edge=0.015),
+                          neariso_via_iso=0.034, neariso_edge=0.015, near_special=0.04, exact_structure=0.08, orient_rows=0.025, mn_axis=0.035,
+                          b_exact_fractions=0.035, ray_near_axis=0.03, **{'cut_closer_than_1e-9': 0.15}),
            max_share=_REF,
            desc='Burgers vector = displacement jump across the cut half-plane (limit at +-1e-9 r), continuity across every '
                 'other ray, invariance along the line, single point = array row = integer-typed positions, character angle, '
                 'header (m, n, xi, transform, burgers, C) against my own numbers'),
-    Clause('kinematics', oracle_kinematics, kin_cases, quick=7000, thorough=120000,
+    Clause('kinematics', oracle_kinematics, kin_cases, quick=6200, thorough=128000,
            min_share=dict(_ACC, nt=0.2, solver_stroh=0.24, solver_iso=0.13, orient_miller=0.18, pt_on_axis=0.24, ptlist=0.2,
                           b_general=0.035, b_climb=0.013, npts3=0.15, closed_form_on_neariso=0.045, neariso_via_auto=0.008,
-                          neariso_via_iso=0.03, neariso_edge=0.02),
+                          neariso_via_iso=0.03, neariso_edge=0.02, near_special=0.04, exact_structure=0.08, pt_near_axis=0.03),
            max_share=_REF,
            desc='strain = sym grad u and div stress = 0 by 4th-order central differences (h = 1e-4 r), stress = C:strain, '
                 'symmetry, homogeneity of degree -1'),
-    Clause('energy', oracle_energy, energy_cases, quick=4500, thorough=75000,
+    Clause('energy', oracle_energy, energy_cases, quick=4000, thorough=80000,
            min_share=dict(_ACC, nt=0.18, BL=0.8, resolved=0.18, solver_stroh=0.26, iso_medium=0.16, mn_vec=0.26,
-                          closed_form_on_neariso=0.045, neariso_via_auto=0.008, neariso_via_iso=0.035, neariso_edge=0.025),
+                          closed_form_on_neariso=0.045, neariso_via_auto=0.008, neariso_via_iso=0.035, neariso_edge=0.025,
+                          near_special=0.035, exact_structure=0.08),
            max_share=_REF,
            desc='K_tensor real symmetric positive definite, equal to the Barnett-Lothe angular integral (and to the closed '
                 'form for isotropic media); K_coeff, preln; slip-plane traction = K.b/(2 pi x)'),
-    Clause('covariance', oracle_covariance, cov_cases, quick=3600, thorough=60000,
+    Clause('covariance', oracle_covariance, cov_cases, quick=3200, thorough=64000,
            min_share=dict(_ACC, nt=0.22, rotated=0.8, both_generic=0.26, miller_vs_transform=0.2, aniso_medium=0.3,
-                          closed_form_on_neariso=0.055, rotated_neariso=0.055, neariso_via_auto=0.006, neariso_edge=0.025),
+                          closed_form_on_neariso=0.055, rotated_neariso=0.055, neariso_via_auto=0.006, neariso_edge=0.025,
+                          Q_exact_permutation=0.08, R_exact_permutation=0.08, exact_structure=0.07, near_special=0.035),
            max_share=_REF,
            desc='rotating crystal (C, b) by Q and laboratory (transform, m, n, points) by R rotates u, strain, stress, K; '
                 'Miller-index orientation = the corresponding transform'),
-    Clause('decades', oracle_decades, g.decade_cases, quick=2500, thorough=37500,
+    Clause('decades', oracle_decades, g.decade_cases, quick=2200, thorough=40000,
            min_share={'accepted': 0.85, 'nt': 0.16, 'span>=8': 0.4, 'lscale': 0.2, 'lscale_SI': 0.04, 'b_scaled': 0.1, 'tol_loose': 0.1,
                       'tol_0.0001': 0.05, 'tol_1e-10': 0.03, 'tol_default': 0.3, 'closed_form': 0.17, 'fd_far': 0.12, 'fd_near': 0.2,
-                      'log_law': 0.4, 'npts>=6': 0.17, 'ptlist': 0.13, 'solver_stroh': 0.22, 'aniso_medium': 0.27},
+                      'log_law': 0.4, 'npts>=6': 0.17, 'ptlist': 0.13, 'solver_stroh': 0.22, 'aniso_medium': 0.27, 'near_special': 0.04,
+                      'exact_structure': 0.08},
            max_share=_REF,
            desc='ONE call of displacement / strain / stress for an array of points 1e-6 .. 1e+6 reference lengths from the line '
                 '(reference length 1e-12 .. 1e+6, Burgers vector in the same unit or not; solver tol default, 1e-4 .. 1e-10): array '
                 'call = point-by-point calls, stress = C:strain, symmetry, 1/r along every ray, logarithmic law of the displacement, '
                 'closed forms (isotropic class), finite-difference compatibility and equilibrium at one of the points, Burgers jump '
                 'at the smallest and largest radius - every comparison relative to the magnitude of the field AT THAT POINT'),
-    Clause('history', oracle_history, g.history_cases, quick=3000, thorough=45000,
+    Clause('history', oracle_history, g.history_cases, quick=2400, thorough=45000,
            min_share={'accepted': 0.85, 'nt': 0.3, 'applied_C': 0.3, 'stroh_C_redefined': 0.18, 'identity_stroh_C_redefined': 0.07,
                       'applied_b': 0.1, 'applied_box': 0.025, 'applied_T': 0.025, 'op_m': 0.035, 'op_n': 0.03, 'op_again': 0.08,
                       'op_eval': 0.08, 'op_out': 0.05, 'op_pos': 0.04, 'form_strided': 0.1, 'form_readonly': 0.12, 'form_list': 0.12,
                       'form_tuple': 0.12, 'identity_orientation': 0.2, 'C_via_Sijkl': 0.03, 'C_via_cubic': 0.03, 'C_via_Cij9': 0.03,
-                      'solver_stroh': 0.2, 'answer_IsotropicVolterraDislocation': 0.15},
+                      'solver_stroh': 0.2, 'answer_IsotropicVolterraDislocation': 0.15, 'again_judged': 0.06, 'ledger>=60': 0.3,
+                      'exact_structure': 0.06},
            max_share=_REF,
            desc='caller-side histories: arguments in every array-like form (float64, strided, Fortran / reversed, read-only, list, '
                 'tuple); solving and evaluating leave the caller\'s objects untouched; after the caller re-defines its ElasticConstants '
@@ -1345,9 +1959,37 @@ CLAUSES = [
                 'arrays in place, re-defines its Box, builds other solutions from the same objects, evaluates elsewhere, overwrites '
                 'the position array or the returned arrays, every output of the first solution (header, K_tensor, K_coeff, preln, '
                 'character angle, p A L k / mu nu, fields) is unchanged; identity orientation in a third of the cases'),
-    Clause('iso_limit', oracle_iso_limit, limit_cases, quick=2200, thorough=37500,
+    Clause('forms', oracle_forms, g.forms_cases, quick=1200, thorough=30000,
+           min_share={'accepted': 0.8, 'judged': 0.42, 'nt': 0.17, 'narrow_argument': 0.39, 'narrow_positions': 0.44, 'positions_at_dtype_limit': 0.13,
+                      'unsigned_argument': 0.045, 'narrow_T': 0.12, 'narrow_b': 0.14, 'narrow_m': 0.15, 'narrow_n': 0.15, 'narrow_uvw': 0.11, 'narrow_hkl': 0.11,
+                      'dt_f2': 0.09, 'dt_f4': 0.09, 'dt_i1': 0.06, 'dt_>i2': 0.03, 'dt_u1': 0.02, 'dt_bool': 0.008, 'dt_np_int': 0.035, 'caller_overwrote': 0.45,
+                      'closed_form': 0.16, 'rows_int': 0.08, 'rows_perm': 0.08, 'mn_axis': 0.18},
+           max_share=_REF,
+           desc='storage and input dtypes: Burgers vector, m, n, transform / axes, Miller indices and field points as float32 / float16 / '
+                'big-endian / int8 .. int64 / unsigned / bool arrays, lists of numpy scalars (values exactly representable: integer '
+                'orientation rows, signed axes, eighths, integer and quarter-integer coordinates up to the limits of the dtype): inputs '
+                'bit-identical afterwards, every output equal to that of the same values as float64 arrays, fields of narrow positions '
+                '= fields of float64 positions point by point (array and single point), header / Hooke / traction / closed forms '
+                'as elsewhere, nothing moves when the caller overwrites what it handed over; result ledger'),
+    Clause('units', oracle_units, units_cases, quick=900, thorough=20000,
+           # (shares on the unchanged tree, where KEY_UNITS excludes Stroh under most configurations; about twice that with the repair)
+           min_share={'accepted': 0.25, 'judged': 0.25, 'nt': 0.1, 'two_configurations_compared': 0.18, 'ledger_across_reset': 0.22, 'units_SI': 0.02,
+                      'units_seed': 0.025, 'units_named': 0.25, 'stiffness_numbers_moderate': 0.15, 'units_answer_Stroh': 0.1,
+                      'units_answer_IsotropicVolterraDislocation': 0.14, 'angstrom_differs': 0.28},
+           desc='working-unit configurations (reset_units: named units, integer seed, SI) before / between calls in one process: the '
+                'physical problem (GPa, angstrom) expressed in working units with my own products of numericalunits attributes is '
+                'judged as elsewhere (header, Hooke, traction, closed forms) and, made dimensionless, equal to the same problem solved '
+                'earlier under the default or another configuration; earlier results in the ledger across the reset'),
+    Clause('combos', oracle_combos, None, quick=1, thorough=1, enumerate=combos_enumerate,
+           min_share={'nt': 0.9, 'cls_stroh': 0.4, 'cls_iso': 0.4, 'orient_same': 0.1},
+           desc='enumerated: every ordered pair of orientation spellings (none, transform, axes, Miller indices without cell / with cell / '
+                'with four indices) x every ordered pair of m, n spellings (default, strings, vectors, one of each, signed axes; cart_axes) '
+                'x tol pairs, for Stroh and the isotropic class: solve() with the second setting on an object solved with the first = an '
+                'object built with the second setting alone (judged by header, Hooke, traction, Burgers jump); the first results unmoved'),
+    Clause('iso_limit', oracle_iso_limit, limit_cases, quick=2000, thorough=40000,
            min_share={'nt': 0.22, 'both_t': 0.45, 'mn_vec': 0.28, 'orient_miller': 0.19, 'closed_form_on_neariso': 0.16,
-                      'neariso_via_auto': 0.06, 'auto_stroh_on_neariso': 0.11, 'neariso_edge': 0.06, 'iso_medium': 0.27},
+                      'neariso_via_auto': 0.06, 'auto_stroh_on_neariso': 0.11, 'neariso_edge': 0.06, 'iso_medium': 0.27, 'near_special': 0.035,
+                      'exact_structure': 0.08},
            desc='isotropic class and dispatcher, on exactly and on nearly isotropic media (inside the acceptance band of the '
                 'class), against Hirth-Lothe closed forms of the Hill-average medium; Stroh on C_iso + t D approaches them '
                 'linearly (t = 1e-2, 1e-3)'),
